@@ -3,6 +3,8 @@
 Everything here is a pure function of the ``random.Random`` it is given; no
 set is iterated, no clock is read.  The generator never calls the system under
 test: an op list is fixed before the run that executes it starts."""
+import re
+
 from . import stubs
 from .stubs import ELEMENTS, ORGANIC, PRESET_NAMES, key_of
 
@@ -350,6 +352,7 @@ SMILES_OK = (
     "C:C:C:C", "C1:C:C:C:C:C:1", "N:C:C:N", "C:C", "CC:CC(F):C:C",
     "c12c3ccc1cc2c3", "c12c3c1c2c3c4cc4", "c12c3c1c2cc4cc34", "c12c3c4c1cc3c4c2", "c12c3cc4c1cc4c23", "c12c3ccc1cc2ccc3",
     "c12c3cc4c1c3ccc4c2", "c12c3cc4c3c4ccc1c2", "c12c3ccc1c(F)c2c3", "Oc1oc(c2ccccc2)c(n1)c3ccccc3", "c12c3cc4c1cc4c2cc3",
+    "c1cc2c3c(ccc4c3c1ccc4)cc1ccccc12", "c1cc2c3c(ccc4c3c1ccc4)cc1ccccc21", "c1ccc2c(c1)ccc1ccccc12", "c1ccc2c(c1)ccc1ccccc21",
     "CC.CC.CC", "[Na+].[Na+].[O-2]", "O.O.CC(=O)O.O", "C1CC1.C1CC1.C1CC1.N", "[K+].[K+].[K+].[O-]P(=O)([O-])[O-]",
     "[CH3:1][CH2:2]O", "[C:12](F)(F)(F)Cl", "[CH0](F)(F)(F)F", "C[NH0](C)C", "C[NH0+](C)(C)C", "C[SeH0]C", "[13CH0](C)(C)(C)C", "C1CCCCCCCCCCCCCCCCCC1", "C(CCCCCCCCCCCCCCCCCCC)(F)Cl",
     "C1CCCCCCCCCCCCCCCCCC1C2CCCCCCCCCCCCCCCCCC2", "F/C=C/C=C\\C=C/Cl", "C[C@H]1CC[C@@H](C)CC1", "O[C@@H]1CC[C@]21CCC2",
@@ -576,7 +579,7 @@ class _GenState:
         elif kind == "decode":
             yield from self.query(idx, only="decode")
         elif kind == "encode":
-            yield from self.query(idx, only="encode")
+            yield from self.query(idx, only="encode", allow_extra=True)
         elif kind == "decode_fail":
             x = gen_failing_selfies(rng, self.ctx())
             op = {"op": "decode", "x": x, "compatible": rng.random() < 0.15, "attribute": rng.random() < 0.3, "why": "fail"}
@@ -606,6 +609,12 @@ class _GenState:
                 elif op["op"] == "decode":
                     flag = rng.choice(("compatible", "compatible", "attribute"))
                     op[flag] = not op[flag]
+                elif u < 0.6 and re.search(r"[A-Za-z\]]\d\d", op["s"]):
+                    # the same molecule, spelt with two ring-closure digits at one atom swapped
+                    # (neighbour order changes, nothing else): whatever is memoised per molecule must not care
+                    ms = list(re.finditer(r"([A-Za-z\]])(\d)(\d)", op["s"]))
+                    m = rng.choice(ms)
+                    op["s"] = op["s"][:m.start()] + m.group(1) + m.group(3) + m.group(2) + op["s"][m.end():]
                 else:
                     flag = rng.choice(("strict", "attribute"))
                     op[flag] = not op[flag]
@@ -700,7 +709,7 @@ class _GenState:
             yield from self.query(idx + n, prefer="focus")
             n += 1
 
-    def query(self, idx, only=None, prefer=None):
+    def query(self, idx, only=None, prefer=None, allow_extra=False):
         rng = self.rng
         ctx = self.ctx()
         kind = only or rng.choice(("decode", "decode", "encode"))
@@ -733,6 +742,15 @@ class _GenState:
         self.recent_inputs.append(dict(op))
         self.all_calls.append(dict(op))
         yield op
+        if allow_extra and op["op"] == "encode" and rng.random() < 0.3:
+            ms = list(re.finditer(r"([A-Za-z\]])(\d)(\d)", op["s"]))
+            if ms:
+                # straight away the same molecule with two ring-closure digits at one atom swapped
+                m = rng.choice(ms)
+                op2 = dict(op, why="respell")
+                op2["s"] = op["s"][:m.start()] + m.group(1) + m.group(3) + m.group(2) + op["s"][m.end():]
+                self.all_calls.append(dict(op2))
+                yield op2
 
     def mutate(self, idx):
         rng = self.rng
